@@ -403,12 +403,23 @@ func (s *Sim) checkGov(t *txCtx, changed bool) {
 		isOwner := owner != "" && owner == signer && s.key(rec.Step.From).String() == signer
 		amt := sdk.NewInt(rec.Step.Amount)
 		to := s.key(rec.Step.To).String()
+		if rec.Step.ToMod != "" {
+			to = ModuleAddr(rec.Step.ToMod)
+		}
 		daoDelta := t.delta(daoAddr)
 		if !isOwner {
 			if !feeOnly() {
 				s.violate("C36", "non-owner-moved-dao-funds", "gov_dao", fmt.Sprintf("height %d: tx id %d by %s (DAO owner %s) changed more than the fee; DAO account changed by %s", t.h, rec.Step.ID, signer, owner, daoDelta))
 			}
 			s.res.Probe("dao_by_non_owner")
+			return
+		}
+		if to == daoAddr && isOwner && rec.Step.Action == govTypes.DAOTransferString {
+			// a transfer to the DAO itself leaves it where it was
+			s.res.Probe("dao_transfer_to_itself")
+			if !daoDelta.IsZero() {
+				s.violate("C36", "dao-delta", "transfer-to-itself", fmt.Sprintf("height %d: tx id %d transfer of %s from the DAO to the DAO changed its balance by %s", t.h, rec.Step.ID, amt, daoDelta))
+			}
 			return
 		}
 		if daoDelta.IsZero() {
@@ -429,6 +440,9 @@ func (s *Sim) checkGov(t *txCtx, changed bool) {
 			want := amt
 			if to == signer {
 				want = amt.Sub(fee)
+			}
+			if to == feeAddr {
+				want = amt.Add(fee) // the fee collector also receives this transaction's fee
 			}
 			if to != daoAddr && !t.delta(to).Equal(want) {
 				s.violate("C36", "dao-transfer-recipient", "gov_dao", fmt.Sprintf("height %d: tx id %d transfer of %s: recipient changed by %s", t.h, rec.Step.ID, amt, t.delta(to)))
